@@ -14,7 +14,7 @@ Open Scope N_scope.
 Record operand := mk_op { o_i : N; o_v : N; o_w : N; o_f : N; o_t : N }.
 Definition op_int (n : N) : operand := mk_op n 0 0 0 0.
 
-Inductive locale := L_en | L_fr | L_ru | L_ar | L_pl | L_ja | L_cy | L_he.
+Inductive locale := L_en | L_fr | L_ru | L_ar | L_pl | L_ja | L_cy | L_he | L_pt | L_pt_PT.
 
 (* relations on n are only true when n has an integer value (t = 0) *)
 Definition n_int (o : operand) : bool := o_t o =? 0.
@@ -45,6 +45,12 @@ Definition cardinal (l : locale) (o : operand) : form :=
   | L_cy => first_of [(Zero, n_is o 0); (One, n_is o 1); (Two, n_is o 2); (Few, n_is o 3); (Many, n_is o 6)]
   | L_he => first_of [(One, ((o_i o =? 1) && v0 o) || ((o_i o =? 0) && negb (v0 o)));
                       (Two, (o_i o =? 2) && v0 o)]
+  (* Brazilian / generic Portuguese: one: i = 0..1 *)
+  | L_pt => first_of [(One, (o_i o =? 0) || (o_i o =? 1));
+                      (Many, negb (o_i o =? 0) && (o_i o mod 1000000 =? 0) && v0 o)]
+  (* European Portuguese (pt-PT and its children): one: i = 1 and v = 0 — the region changes the rule *)
+  | L_pt_PT => first_of [(One, (o_i o =? 1) && v0 o);
+                         (Many, negb (o_i o =? 0) && (o_i o mod 1000000 =? 0) && v0 o)]
   end.
 
 Definition ordinal (l : locale) (o : operand) : form :=
@@ -55,7 +61,7 @@ Definition ordinal (l : locale) (o : operand) : form :=
   | L_fr => first_of [(One, n_is o 1)]
   | L_cy => first_of [(Zero, n_is o 0 || n_is o 7 || n_is o 8 || n_is o 9); (One, n_is o 1); (Two, n_is o 2);
                       (Few, n_is o 3 || n_is o 4); (Many, n_is o 5 || n_is o 6)]
-  | L_ru | L_ar | L_pl | L_ja | L_he => Other
+  | L_ru | L_ar | L_pl | L_ja | L_he | L_pt | L_pt_PT => Other
   end.
 
 Definition cldr_cat (l : locale) (r : rule) (o : operand) : form :=
@@ -72,6 +78,8 @@ Definition cldr_categories (l : locale) (r : rule) : list form :=
   | Cardinal, L_ja => [Other]
   | Cardinal, L_cy => [Zero; One; Two; Few; Many; Other]
   | Cardinal, L_he => [One; Two; Other]
+  | Cardinal, L_pt => [One; Many; Other]
+  | Cardinal, L_pt_PT => [One; Many; Other]
   | Ordinal, L_en => [One; Two; Few; Other]
   | Ordinal, L_fr => [One; Other]
   | Ordinal, L_cy => [Zero; One; Two; Few; Many; Other]
